@@ -9,6 +9,12 @@ C05 - discrete conservation: no-flux Laplacian and divergence integrate to zero.
 Theorems about `PdeVerif.Conserve` (volume-weighted sums of the `PdeVerif.Stencil` kernels with
 ghost cells given by `PdeVerif.BC`).  All for any number of cells `n`, any spacing, any inner
 radius, any field content, by telescoping (induction on `n`).
+
+Continued in `Props/C05b.lean` (per-axis conserving ghost cells for every number of axes, Cartesian divergence in 2-d
+and 3-d, cylindrical periodic `z`, composition with `BC.setGhostAll` and `Stencil.centre`) and `Props/C05c.lean` (the
+solver steps and loops of `Model/Solvers.lean`).  NOTE: the ghost-cell hypotheses of the 2-d/3-d/cylindrical theorems
+of *this* file quantify over all `j : Nat` (edges and corners included), which is more than `setGhostAll` delivers;
+the versions with bounded hypotheses that compose with the ghost-cell model are in `Props/C05b.lean`.
 -/
 namespace PdeVerif.Conserve
 open PdeVerif PdeVerif.Stencil PdeVerif.BC
@@ -563,9 +569,9 @@ theorem integral_invariant_over_steps (I : V →ₗ[K] K) (step : V → V)
     obtain ⟨terms, h1, h2⟩ := hstep (step^[n] u0)
     rw [h2, integral_invariant_of_rate_zero_integral I _ terms h1, ih]
 
-/-- Cahn-Hilliard: the rate is the (conserving) Laplacian of *any* chemical potential -/
-theorem cahn_hilliard_rate_integral_zero (I : V →ₗ[K] K) (lap : V → V) (hlap : ∀ w, I (lap w) = 0)
-    (mu : V → V) (u : V) : I (lap (mu u)) = 0 := hlap _
+/- Cahn-Hilliard: the rate is the (conserving) Laplacian of *any* chemical potential - stated concretely (ghost cells by
+`setGhostAll`, arbitrary potential `mu u t`) as `cart1Rate_conserving` ... `cylRate_conserving` in `Props/C05c.lean`;
+the solver steps of `Model/Solvers.lean` that keep the integral are there too (`solver_steps_conserve`). -/
 
 end schemes
 
